@@ -55,6 +55,13 @@ impl OracleView {
         }
         Some(q_min(ci, p * q_ratio(5, 100)))
     }
+    /// Allowance for the program's fixed-point evaluation of the band: the constants 2.12 / 1.96 /
+    /// 0.05 are themselves fixed-point numbers (off by < 1 ulp), so the band carries a relative
+    /// error of one ulp of its operands on top of the truncations.
+    fn band_slack(&self, kind: PriceKind) -> Q {
+        let (p, s) = self.pair(kind);
+        ulp() * (q_int(8) + p.abs() + &self.k * s.abs())
+    }
     /// enclosure of the program's biased price: (low, high); None when unusable
     pub fn low(&self, kind: PriceKind) -> Option<Iv> {
         if !self.loaded {
@@ -62,7 +69,7 @@ impl OracleView {
         }
         let b = self.band(kind)?;
         let (p, _) = self.pair(kind);
-        Some(Iv::point(p - b).widen(&(q_int(6) * ulp())))
+        Some(Iv::point(p - b).widen(&self.band_slack(kind)))
     }
     pub fn high(&self, kind: PriceKind) -> Option<Iv> {
         if !self.loaded {
@@ -70,7 +77,7 @@ impl OracleView {
         }
         let b = self.band(kind)?;
         let (p, _) = self.pair(kind);
-        Some(Iv::point(p + b).widen(&(q_int(6) * ulp())))
+        Some(Iv::point(p + b).widen(&self.band_slack(kind)))
     }
     pub fn unbiased(&self, kind: PriceKind) -> Option<Iv> {
         if !self.loaded {
